@@ -40,3 +40,18 @@ impl SocketAddr {
     pub fn ip(&self) -> (r: IpAddr) ensures r == self.ip { self.ip }
     pub fn port(&self) -> (r: u16) ensures r == self.port { self.port }
 }
+// std: "Converts this address to an IpAddr::V4 if it is an IPv4-mapped IPv6 address (::ffff:a.b.c.d), otherwise returns self as-is"
+pub open spec fn v4_mapped(o: Seq<u8>) -> bool {
+    o.len() == 16 && (forall|i: int| 0 <= i < 10 ==> o[i] == 0) && o[10] == 0xff && o[11] == 0xff
+}
+impl IpAddr {
+    #[verifier::external_body]
+    pub fn to_canonical(&self) -> (r: IpAddr)
+        ensures match *self {
+            IpAddr::V4(_) => r == *self,
+            IpAddr::V6(a) => if v4_mapped(a.o@) { r is V4 && r->V4_0.o@ == a.o@.subrange(12, 16) } else { r == *self },
+        },
+    { unimplemented!() }
+    pub fn is_ipv4(&self) -> (r: bool) ensures r == (*self is V4) { match self { IpAddr::V4(_) => true, IpAddr::V6(_) => false } }
+    pub fn is_ipv6(&self) -> (r: bool) ensures r == (*self is V6) { match self { IpAddr::V4(_) => false, IpAddr::V6(_) => true } }
+}
